@@ -233,6 +233,7 @@ def decompose_and_order(graph, component, component_name, bo_start=0):
         f" It took {time.perf_counter() - start} seconds to find the Biconnected Components"
     )
     bubbles = []
+    bubble_names = dict()
     scaffold_graph = GFA()
     scaffold_node_types = dict()
     for n in artic_points:
@@ -259,10 +260,15 @@ def decompose_and_order(graph, component, component_name, bo_start=0):
         else:
             bubble_index = len(bubbles)
             bubbles.append(bc_inside_nodes)
-            scaffold_graph.add_node(str(bubble_index))
-            scaffold_node_types[str(bubble_index)] = "b"
+            # the bubble's node in the scaffold graph must not carry the id of a segment (ids can be plain numbers)
+            bubble_name = str(bubble_index)
+            while bubble_name in new_graph:
+                bubble_name = "b" + bubble_name
+            bubble_names[bubble_name] = bubble_index
+            scaffold_graph.add_node(bubble_name)
+            scaffold_node_types[bubble_name] = "b"
             for end_node in bc_end_nodes:
-                scaffold_graph.add_edge(str(bubble_index), "+", end_node, "+", 0)
+                scaffold_graph.add_edge(bubble_name, "+", end_node, "+", 0)
 
     logger.info(f"  Bubbles: {len(bubbles)}")
     logger.info(f"  Scaffold graph: {len(scaffold_graph)} nodes")
@@ -310,7 +316,7 @@ def decompose_and_order(graph, component, component_name, bo_start=0):
         if scaffold_node_types[element] == "s":
             members = [element]
         else:
-            members = bubbles[int(element)]
+            members = bubbles[bubble_names[element]]
         reference_name = new_graph[traversal_scaffold_only[0]].tags["SN"][1]
         offsets = [
             int(new_graph[n].tags["SO"][1])
@@ -341,7 +347,7 @@ def decompose_and_order(graph, component, component_name, bo_start=0):
         if node_type == "s":
             node_order[node] = (bo, 0)
         elif node_type == "b":
-            for i, n in enumerate(sorted(bubbles[int(node)])):
+            for i, n in enumerate(sorted(bubbles[bubble_names[node]])):
                 node_order[n] = (bo, i + 1)
         else:
             assert False
